@@ -62,8 +62,8 @@ PROPS["C05"] = {
 }
 
 PROPS["C17"] = {
-    "module": "RCE.Props.C17chess",
-    "theorems": ["RCE.Props.C17.eval_mirror", "RCE.Props.C17.eval_swap", "RCE.Props.C17.eval_range",
+    "module": "RCE.Props.C17src",
+    "theorems": ["RCE.Props.C17.eval_source_eq", "RCE.Props.C17.eval_source_mirror", "RCE.Props.C17.eval_source_swap", "RCE.Props.C17.eval_mirror", "RCE.Props.C17.eval_swap", "RCE.Props.C17.eval_range",
                  "RCE.Props.C17.saturation_breaks_antisymmetry", "RCE.Props.C17.reachable_material_bounded", "RCE.Props.C17.eval_swap_reachable", "RCE.Props.C17.eval_swap_in_every_game"],
     "streams": {"quick": [WALK_Q, FEN_Q], "thorough": [WALK_T, FEN_T]},
     "rule": WALK_RULE,
@@ -217,14 +217,14 @@ PROPS["C01"] = {
 }
 
 PROPS["C03"] = {
-    "module": "RCE.Props.C03hist",
-    "theorems": ["RCE.Props.C03.make_refines", "RCE.Props.C03.make_legal", "RCE.Props.C03.game_refines",
+    "module": "RCE.Props.C03u16",
+    "theorems": ["RCE.Props.C03.counters_fit_u16", "RCE.Props.C03.counters_fit_u16_from_start", "RCE.Props.C03.make_refines", "RCE.Props.C03.make_legal", "RCE.Props.C03.game_refines",
                  "RCE.Props.C03.repetition_record", "RCE.Props.C03.start_legal",
                  "RCE.Props.C03.rights_never_regained", "RCE.Props.C03.ep_iff_double_push", "RCE.Props.C03.ep_only_after_double_push"],
     "streams": {"quick": [WALK_Q, FEN_Q], "thorough": [WALK_T, FEN_T]},
     "rule": WALK_RULE + "; plus the generated FEN family (half-move clocks up to 650, move numbers up to 6000) with a few moves played from every loaded position; for C03 after every move of every game the implementation's placement (x64), side to move, four rights, en-passant file, half-move clock, full-move number "
             "are compared with the rules state machine, its FEN with the spec's rendering, and its repetition record with the multiset of keys of the earlier positions on the path",
-    "assumptions": ["u16 wrap of the two counters is outside the model (Nat); a legal game cannot reach 65535"],
+    "assumptions": ["the two counters are Nat in the model and u16 in the engine; counters_fit_u16 proves that no u16 addition can wrap within 65,535 - (counter at the start) plies, beyond that is outside the claim"],
 }
 
 UCI_Q = {"name": "uci", "stream": "uci", "driver": "uci", "shards": 16, "args": ["--sessions", 1600]}
